@@ -205,8 +205,9 @@ def gen_case(rng, row, draw, thorough=False):
                               b"\xff" * 16, bytes(15) + b"\x01"]).hex()
     if _has(mixins, "RelocTable") and rng.random() < 0.6:
         n = rng.choice([1, 1, 2, 3, 4])
-        c["reloc"] = [[bytes(rng.getrandbits(8) for _ in range(rng.choice([0, 1, 3, 4, 5, 16, 17, rng.randrange(1, 300)]))).hex(),
-                       rng.choice([0, 0x20001000, 0xFFFFFFFF, rng.getrandbits(32)])] for _ in range(n)]
+        # distinct destination addresses (create_config names the extracted images after them)
+        dsts = rng.sample([0, 0x20001000, 0xFFFFFFFF, rng.getrandbits(32), rng.getrandbits(32), rng.getrandbits(31), 4 * rng.getrandbits(20)], n)
+        c["reloc"] = [[bytes(rng.getrandbits(8) for _ in range(rng.choice([0, 1, 3, 4, 5, 16, 17, rng.randrange(1, 300)]))).hex(), d] for d in dsts]
     if _has(mixins, "CertBlockV1"):
         pool = list(RSA_VARIANTS) if thorough else RSA_QUICK
         c["cert"] = {"kind": "v1", "id": pool[(draw + rng.randrange(len(pool))) % len(pool)] if draw >= len(pool) else pool[draw % len(pool)]}
@@ -226,7 +227,10 @@ def gen_case(rng, row, draw, thorough=False):
             c["cert"] = {"kind": "vx"}
             c["add_hash"] = rng.random() < 0.7
             c["just_header"] = rng.random() < 0.2
-    c["cfg_rt"] = draw == 0 and c.get("sub", 0) in (0, 1)
+    # configuration round trip: sub types 2/3 have no label; an explicitly chosen digest algorithm that does not match the
+    # signing key ("image won't boot" is logged) is not kept by the configuration
+    c["malformed"] = rng.getrandbits(32) if draw == 1 else 0
+    c["cfg_rt"] = draw == 0 and c.get("sub", 0) in (0, 1) and c.get("digest") in (None, "auto")
     return c
 
 
@@ -552,6 +556,21 @@ def eval_case(case, row):
                 applen += sum(len(bytes.fromhex(i)) + (-len(bytes.fromhex(i)) % 4) for i, _ in case["reloc"]) + 16 * len(case["reloc"]) + 16
             if w28 != applen:
                 fail("IVT certificate-block offset is not the length of application (+ relocation table)", w28, applen)
+    # ---------------- malformed variants (model vs implementation only; the property says nothing about them)
+    if case.get("malformed") and has_ivt and not _has(mixins, "CertBlockV1", "CertBlockV21"):
+        mal = []
+        for name, img in malformed_variants(case["malformed"], e, case, tzs):
+            r = pyres(MasterBootImage.parse, fam, img, None, rev)
+            if r[0] == "ok":
+                q = r[1]
+                if type(q).__name__ != cn:
+                    continue    # another class of the family was selected: not comparable with this class' model
+                g = pyres(settings_of, q, mixins)
+                line = "ok:" + real_settings_line(g[1], None) if g[0] == "ok" else "settings:" + g[0]
+            else:
+                line = r[0] if r[0] != "E:other" else "E:other"
+            mal.append((name, img.hex(), line))
+        obs["mal"] = mal
     # ---------------- parse(export(x)) = x
     dek = case.get("hkey")
     r = pyres(MasterBootImage.parse, fam, e, dek, rev)
@@ -673,6 +692,45 @@ def config_roundtrip(case, row, p, e, sr, ir, key_file, cert_bin=None):
         shutil.rmtree(out, ignore_errors=True)
 
 
+def malformed_variants(rng_seed, e, case, tzs):
+    """corrupted / truncated versions of an exported plain or CRC image (image type, zero-length-ness and load address are kept,
+    so the parser selects the same class)"""
+    rng = random.Random(rng_seed)
+    n = len(e)
+    out = []
+
+    def put(off, val):
+        b = bytearray(e)
+        b[off:off + 4] = struct.pack("<I", val & 0xFFFFFFFF)
+        return bytes(b)
+    w20, w24 = struct.unpack_from("<2I", e, 0x20)
+    # lengths are kept multiples of 4 (the `app` setter pads a parsed application to 4 again; the model's parser does not model
+    # that padding because every exported image is aligned)
+    for L in {0, 0x10, 0x24, 0x34, 0x38, 0x3C, n - 4, max(0, n - tzs), max(0, n - tzs - 4), 4 * rng.randrange(n // 4 + 1)}:
+        if w20 == 0 or L >= 0x24:
+            out.append(("trunc", e[:L]))
+    if w20 != 0:
+        for v in (n + 1, 0xFFFFFFFF, n - 1, 0x38, 1):
+            out.append(("total_len", put(0x20, v)))
+    for bit in (6, 7, 10, 11, 12, 13, 14, 15, 16, 31):
+        if bit == 13 and tzs == 0:
+            continue   # custom TrustZone data of a family without TrustZone database: the model has no preset size to refuse
+        out.append((f"flag_bit{bit}", put(0x24, w24 ^ (1 << bit))))
+    out.append(("tz3", put(0x24, w24 | (3 << 13))))
+    out.append(("append", e + bytes(rng.getrandbits(8) for _ in range(rng.choice([4, 8, 16, 20])))))
+    if "reloc" in case:
+        b = bytearray(e)
+        tail = n - (len(bytes.fromhex(case["tz"][1])) if case.get("tz", ["e"])[0] == "c" else 0)
+        for name, off, val in (("reloc_marker", tail - 16, 0x4C54424D), ("reloc_ver", tail - 12, 1), ("reloc_n", tail - 8, 0xFFFF),
+                               ("reloc_n0", tail - 8, 0), ("reloc_ptr", tail - 4, n + 5), ("reloc_ptr0", tail - 4, 0),
+                               ("reloc_entry_flags", tail - 20, 0), ("reloc_entry_size", tail - 24, 0x7FFFFFFF), ("reloc_entry_src", tail - 32, n)):
+            if off >= 0x38:
+                b2 = bytearray(b)
+                b2[off:off + 4] = struct.pack("<I", val)
+                out.append((name, bytes(b2)))
+    return out
+
+
 def _short(h):
     return h if len(h) <= 160 else {"len": len(h) // 2, "head": h[:64], "tail": h[-64:]}
 
@@ -750,12 +808,14 @@ def _worker_init():
 
 
 def _work(task):
-    ri, seed, draws, thorough = task
+    ri, seed, draws, thorough, mal_ok = task
     row = ROWS[ri]
     rng = random.Random(seed)
     out = []
     for d in range(draws):
         case = gen_case(rng, row, d, thorough)
+        if not mal_ok:
+            case["malformed"] = 0
         try:
             obs, fails = eval_case(case, row)
         except Exception as exc:  # noqa: BLE001  - never let the real code (or a harness slip) kill the run silently
@@ -808,7 +868,11 @@ def run(ck, only_rows=None):
               "AES/SHA/HMAC/CRC of the model are the Lean reference implementations (validated by C09)")
     draws = ck.budget(3, 40)
     rows_sel = list(range(len(ROWS))) if only_rows is None else only_rows
-    tasks = [(ri, ck.rng.getrandbits(64), draws, not ck.quick) for ri in rows_sel]
+    first_of_shape = {}
+    for ri, r in enumerate(ROWS):
+        first_of_shape.setdefault((r[5], r[6]), ri)
+    mal_rows = set(first_of_shape.values()) if ck.quick else set(range(len(ROWS)))   # malformed stream: quick = one row per mixin list
+    tasks = [(ri, ck.rng.getrandbits(64), draws, not ck.quick, ri in mal_rows) for ri in rows_sel]
     s = ck.stream("export_parse", f"EVERY row of the MBI class table ({len(ROWS)} rows = family x revision x target x authentication; {len(shape_idx)} distinct mixin lists) x {draws} draws: "
                   "payload lengths {0x38..0x41,0x48,0x50,0x1FF,0x200,0x201, random <= 8 KiB, multiples of 16/512 +-1}, tails resembling the relocation marker, load addresses, "
                   "image versions, sub-types, TrustZone disabled/default/custom, HW-key flag, key store none/present/OTP, relocation tables of 1-4 entries, HMAC keys, counter IVs, "
@@ -819,6 +883,8 @@ def run(ck, only_rows=None):
                    "non-trivial = distinct (family, revision, image)")
     st = ck.stream("theorem_instances", "every generated case of an IVT class: the hypotheses (ClassWF, cfgWF) hold and the conclusions of parse_export / reexport / "
                    "header_describes / total_len_sum evaluate to true in the compiled Lean model (non-vacuity of the theorem hypotheses on the generator's inputs)")
+    sm = ck.stream("malformed", "truncated / corrupted variants (length classes around 0x38 and the TrustZone block, total-length word, every flag bit, TrustZone type 3, "
+                   "appended bytes, relocation header/entry fields) of exported plain and CRC images: accept/reject class and parsed settings, model vs implementation")
     ctx = multiprocessing.get_context("fork")
     nproc = min(8, os.cpu_count() or 2)
     extra_drivers = []
@@ -880,6 +946,9 @@ def run(ck, only_rows=None):
                         ln += f" certsize={obs['cert_size']}"
                     lines.append(ln)
                     real.append("cwf=1 wf=1 rt=1 re=1 hdr=1 tl=1")
+                for name, img, line in obs.get("mal", []):
+                    lines.append(model_parse_line("parse", case, obs, sh, tzs, bytes.fromhex(img)).replace("parse ", "mparse ", 1))
+                    real.append(line)
                 if "parsed_cls" in obs:
                     cands = groups[(fam, rev)]
                     lines.append("select fixed=%d cands=%s data=%s" % (fixed, ",".join(f"{shape_idx[(c[5], c[6])]}:{c[7]}" for c in cands), _hx(eb)))
@@ -902,7 +971,10 @@ def run(ck, only_rows=None):
                     a = answers[k][pos]
                     pos += 1
                     op = ln.split(" ", 1)[0]
-                    if op == "thm":
+                    if op == "mparse":
+                        sm.note((inp["row"], hash(ln)))
+                        sm.compare({**inp, "variant": ln[:0]}, _short_line(r), _short_line(a), "malformed image: parser verdict / settings differ between model and implementation")
+                    elif op == "thm":
                         st.note((inp["row"], hash(ln)))
                         st.compare(inp, r, a, "a generated valid case does not satisfy the hypotheses (wf/cwf) or the conclusions (rt: parse(export)=canon, "
                                    "re: re-export, hdr: header words, tl: total length) of the C01 theorems in the compiled model")
